@@ -119,7 +119,7 @@ func (p *progGen) derive() {
 	case x < 67:
 		p.add(c07Step{S: "fields", P: par, Fs: p.fields(n, false)}, k)
 	case x < 82:
-		p.add(c07Step{S: "named", P: par, N: Pick(p.r, []string{"", "a", "b", "svc", "x.y", ""})}, k)
+		p.add(c07Step{S: "named", P: par, N: Pick(p.r, []string{"", "a", "b", "svc", "x.y", "", ".svc", ".", "a.", ".."})}, k)
 	case x < 94:
 		if k == "zap" {
 			p.add(c07Step{S: "sugar", P: par}, "sugar")
